@@ -156,6 +156,22 @@ func c11Scenarios(era drive.Era) []c11Scenario {
 	out = append(out, c11Scenario{name: fmt.Sprintf("opr/%d-valid+retried-after-transient-fault", W+1), class: "opr-retried", fault: true, blocks: func(b *drive.Builder, _ []int) []drive.BlockSpec {
 		return []drive.BlockSpec{{ExtraOPR: c11OPRs(b, W+1, 300)}}
 	}})
+	// records that share fields a payout must not be keyed on: one miner id naming different payout addresses, and one
+	// payout address behind different miner ids
+	out = append(out, c11Scenario{name: fmt.Sprintf("opr/%d-valid/shared-miner-ids-different-payout-addresses", W+1), class: "opr", blocks: func(b *drive.Builder, _ []int) []drive.BlockSpec {
+		es := c11OPRs(b, W+1, 300)
+		var out []fake.Entry
+		h := b.Next()
+		ver := b.Era.OPRVersion(h)
+		prev := b.Prev
+		if len(prev) == 0 {
+			prev = make([]string, map[bool]int{true: 10, false: 25}[ver == 1])
+		}
+		for i := range es {
+			out = append(out, kit.OPRSpec{Version: ver, Height: int32(h), Prev: prev, Rates: noisy(R1(), i), Coinbase: kit.AddrStr(300 + i), ID: fmt.Sprintf("shared%d", i%3), Nonce: []byte{byte(i), 0, 2}}.Entry())
+		}
+		return []drive.BlockSpec{{ExtraOPR: out}}
+	}})
 	for _, n := range []int{W, W + 1} {
 		n := n
 		out = append(out, c11Scenario{name: fmt.Sprintf("opr/%d-valid+one-record-answered-with-another-records-bytes-once", n), class: "opr-substituted-answer", subst: true, blocks: func(b *drive.Builder, _ []int) []drive.BlockSpec {
